@@ -477,6 +477,7 @@ func (e *lkEp) op(c *Ctx, line string) {
 		e.srv.flush()
 		c.Hit("failext")
 		emit()
+		e.failKey = "" // nobody extended that key (foreign value, no monitor): the fault is not kept for later
 	default:
 		c.Emit(line, "bad-op", false)
 	}
